@@ -157,7 +157,7 @@ def specUnion (packed : Bool) (aligned : Option Nat) (ms : List SMem) : SLayout 
 
 /-! ### types -/
 
-open ChibiVerif.Layout (Ty Members MemDecl)
+open ChibiVerif.Layout (Ty Members MemDecl Aligns)
 
 mutual
   def specSizeAlign : Ty → Nat × Nat
@@ -168,18 +168,23 @@ mutual
     | .flex e => let (_, a) := specSizeAlign e; (0, a)
     | .struct p al ms => let l := specStruct p (al.map Int.toNat) (specMembers ms); (l.size, l.align)
     | .union p al ms => let l := specUnion p (al.map Int.toNat) (specMembers ms); (l.size, l.align)
+  /-- C11 6.7.5p6: `_Alignas(type-name)` is `_Alignas(_Alignof(type-name))`, `_Alignas(0)` has no effect, and of several
+      specifiers the strictest one takes effect: the maximum (0 = no specifier) -/
+  def specAligns : Aligns → Nat
+    | .nil => 0
+    | .const n rest => max n.toNat (specAligns rest)
+    | .type t rest => max (specSizeAlign t).2 (specAligns rest)
   def specMembers : Members → List SMem
     | .nil => []
-    | .cons d ty rest =>
+    | .cons d as ty rest =>
       let (s, a) := specSizeAlign ty
-      { size := s, tyAlign := a, alignas := d.alignas.toNat, bitWidth := d.bitWidth.map Int.toNat, named := d.named }
-        :: specMembers rest
-    | .consT d aty ty rest =>
-      -- C11 6.7.5p6: `_Alignas(type-name)` is `_Alignas(_Alignof(type-name))`
-      let (s, a) := specSizeAlign ty
-      { size := s, tyAlign := a, alignas := (specSizeAlign aty).2, bitWidth := d.bitWidth.map Int.toNat, named := d.named }
+      { size := s, tyAlign := a, alignas := specAligns as, bitWidth := d.bitWidth.map Int.toNat, named := d.named }
         :: specMembers rest
 end
+
+/-- alignment of an object declared with specifiers `as` and type `ty` (C11 6.7.5p6, 6.2.8) -/
+def specVarAlign (as : Aligns) (ty : Ty) : Nat :=
+  if specAligns as ≠ 0 then specAligns as else (specSizeAlign ty).2
 
 /-- size, alignment and member placements of a whole type -/
 def specTy : Ty → SLayout
